@@ -8,6 +8,7 @@ from . import core
 
 ENGINES = {
     "C49": "e9_iotree",
+    "C50": "e10_stream",
 }
 
 
